@@ -298,6 +298,9 @@ Definition serialize_code : list dstmt :=
   [DAssign "serialized" "&serializedInput{}"; DCall "xml.Marshal(m)"; DIf (DNot (DEq "err" "nil")) [DReturn "nil, err"] []; DIf (DNot (DAtom "excludeHeader")) [DAssign "msg" "append([]byte(xmlHeader), msg...)"] []; DIf (DAtom "forceSelfClosingTags") [DAssign "msg" "ForceSelfClosingTags(msg)"] []; DAssign "serialized.rawXML" "make([]byte, len(msg))"; DCall "copy(serialized.rawXML, msg)"; DSwitch "v" [(["V1Dot0"], [DAssign "msg" "append(msg, []byte(v1Dot0Delim)...)"]); (["V1Dot1"], [DAssign "msg" "append([]byte(fmt.Sprintf(""#%d\n"", len(msg))), msg...)"; DAssign "msg" "append(msg, []byte(""\n##"")...)"])]; DAssign "serialized.framedXML" "msg"; DReturn "serialized, nil"].
 Definition serialize_params : list string := ["v"; "forceSelfClosingTags"; "excludeHeader"].
 Definition serialize_call_args : list string := ["d.SelectedVersion"; "d.ForceSelfClosingTags"; "d.ExcludeHeader"].
+(* driver/netconf/capabilities.go Driver.ServerHasCapability *)
+Definition server_has_capability_code : list dstmt :=
+  [DRange "serverCapability" "d.serverCapabilities" [DIf (DEq "serverCapability" "s") [DReturn "true"] []]; DReturn "false"].
 (* the option loops of the constructors (C19) *)
 Definition option_loops : list (string * dstmt) := [
   ("driver/generic/driver.go NewDriver",
